@@ -468,7 +468,20 @@ class AirTouchSocket(Generic[comms.Hdr]):
                 entry = self._message_queue.popleft()
 
                 if self._loop.time() < entry.expiry:
-                    await self._write(entry.header, entry.message)
+                    try:
+                        await self._write(entry.header, entry.message)
+                    except OSError:
+                        raise
+                    except Exception:
+                        # Anything else indicates an error encoding this
+                        # message (the encoders raise ValueError, struct.error,
+                        # KeyError, ... depending on what is wrong with it).
+                        # We shouldn't retry this message, but the connection
+                        # doesn't need to be reset and the messages behind it
+                        # are still to be sent.
+                        _LOGGER.exception(
+                            "Encoding error for message %s", entry.message
+                        )
                 else:
                     self._log_dropped_message(entry, "expired")
 
@@ -497,14 +510,6 @@ class AirTouchSocket(Generic[comms.Hdr]):
                     )
                 )
             await self.reset_connection()
-
-        except Exception:
-            # Anything else indicates an error encoding this message (the
-            # encoders raise ValueError, struct.error, KeyError, ... depending
-            # on what is wrong with the message).
-            # We shouldn't retry this message, but the connection doesn't need
-            # to be reset.
-            _LOGGER.exception("Encoding error for message %s", entry.message)
 
     async def _write(self, header: comms.Hdr, message: comms.Message) -> None:
         """Writes a single message to the stream.
